@@ -34,28 +34,50 @@ LEVEL_TEXT = ("Lean theorems over a model of POSIX pure paths (parse, render, re
               "and is inverted by join; saving under A and loading under B maps A/x to B/x for every recording "
               "reachable from the collection by whatever route (clip, sound event, sequence, prediction, task, match), "
               "for all eight collection constructors; every recording is stored relative to the directory and saving "
-              "fails as a whole when one lies outside; without a directory (on either side) paths pass through. The "
-              "path model is compared with pathlib on every generated path, and stored / relocated paths of all eight "
-              "collection types with the real save / load (directory as str and as Path independently on both sides, "
-              "messy spellings, several saves / loads and save-load chains in one process).")
+              "fails as a whole when one lies outside; without a directory (on either side) paths pass through. "
+              "Histories: a session model (live objects and files / in-memory documents as state) with theorems that a "
+              "successful save replaces exactly the target's content whatever it held, a failing save changes nothing, "
+              "a file changes only through a save to it, one document converted under several directories relocates "
+              "each time from the saved paths, and saves are history free. The path model is compared with pathlib on "
+              "every generated path, and stored / relocated paths of all eight collection types with the real save / "
+              "load (directory as str, Path, os.PathLike and PurePosixPath, messy spellings, keyword and positional "
+              "calls, objects built by constructors / validation / JSON / copies / user-defined subclasses) and with "
+              "whole sessions of saves, loads, conversions and edits in one process.")
 LEVEL_NOTE = ("Trusted: Lean kernel; pathlib itself (its parse is compared with the model's on every generated path); "
-              "POSIX flavour only (Windows paths are out of scope). The file system is not modelled: that a failing save "
-              "leaves nothing behind (no file at the target, no other file next to it, an existing file untouched) is "
-              "observed on the real code for every failing case. That `save` creates a missing parent directory of the "
-              "target file before converting is observed and not compared.")
-TECHNIQUE = ("Lean 4 proof (path algebra and recording-adapter theorems over the AOEF model); regenerated "
-             "adapter-table obligation (introspection of ADAPTERS: one recording adapter per collection adapter, and it "
-             "got the directory); differential correspondence with pathlib and with the real save/load of all eight "
-             "collection types")
+              "POSIX flavour only (Windows paths are out of scope). Of the file system only this is modelled: a file is a "
+              "cell holding one document; a successful save replaces the cell, a failing one leaves every cell as it was, "
+              "loads do not write. That the real files behave like that (the target holds exactly the new document also "
+              "over a longer earlier file, a failing save leaves nothing behind and an existing file byte for byte "
+              "untouched, no other file changes) is observed on the real code at every save of every case. That `save` "
+              "creates a missing parent directory of the target before converting is observed and not compared. A "
+              "PurePosixPath as *load* directory and anything but str / Path as `Recording.path` are outside the "
+              "quantifier (pydantic rejects them today). The very large collections (> 36 clips) are checked for "
+              "well-formedness by the harness, not by the model's `wf` (quadratic).")
+TECHNIQUE = ("Lean 4 proof (path algebra, recording-adapter theorems over the AOEF model, session semantics over objects "
+             "and files); three regenerated table obligations (introspection of ADAPTERS: one recording adapter per "
+             "collection adapter, and it got the directory; subclass instances are converted by their type's adapter; "
+             "positions of the positional parameters of the six public functions); differential correspondence with "
+             "pathlib, with the real save/load of all eight collection types, and with sessions of saves / loads / "
+             "conversions / edits in one process")
 RULE = ("distinct (operation, input) cases on which the real code produced paths (or the expected failure): path "
-        "strings against pathlib, stored paths and relocated paths of every recording of a collection")
+        "strings against pathlib, stored paths and relocated paths of every recording of a collection; sessions "
+        "(`session`): 64 / 512 template sessions (8 kinds x 8 types: same target longer-shorter-longer, failing save "
+        "over an existing file, same objects under other directories and files, recording moved after the first save "
+        "by assignment / model_copy, loaded object changed and saved back, caller changes a loaded object, one "
+        "in-memory document converted several times, construction paths of one content) plus 16 / 128 random walks, "
+        "8-16 steps each, every step judged by pathlib arithmetic and by the session model")
 TRUSTED = ["pathlib.PurePosixPath (compared with the model on every generated path)",
-           "harness/aoef.py conversions (shared with C01)"]
+           "harness/aoef.py `build` (constructors of soundevent.data; shared with C01); the generic walker over "
+           "pydantic fields that reads `Recording.path` of live objects",
+           "expected values come from pathlib arithmetic on the input (`_want_stored`, `_want_relocated`, "
+           "`_session_oracle`) and from the Lean model, never from soundevent"]
 ASSUMPTIONS = ["POSIX path flavour"]
 NOT_COMPARED = ["creation of the target file's parent directory before the conversion fails",
                 "error messages and error classes (only: an exception is raised and nothing is left behind in the "
                 "target directory)",
-                "the spelling of a loaded path beyond pathlib equality (str(Path(p)) is compared)"]
+                "the spelling of a loaded path beyond pathlib equality (str(Path(p)) is compared)",
+                "the class of the loaded collection and every field other than the recordings' uuids and paths (C01)",
+                "whether `Recording.path` of a loaded recording is a Path or a str"]
 
 PARTS = ["a", "b", "sub dir", "ünï", "x.y", ".hidden", "..", "...", " ", "rec.wav", "ñandú 1.WAV", "data", "audio", "a",
          " lead", "trail ", "tab\there", "estacio\u0301n", "estaci\u00f3n", "..x", "~"]
@@ -326,12 +348,13 @@ def _copy_tree(x, f, memo):
     return y
 
 
-MOVE_HOWS = ["assign", "assign_str", "model_copy", "model_copy_str"]
+MOVE_HOWS = ["assign", "assign_str", "model_copy", "model_copy_str", "copy_assign"]
 
 
 def _move(obj, src, dst, how):
     """every recording of the live object at `src` is at `dst` afterwards -> the live object to go on with
-    (the same one after an assignment, a new one after `model_copy`)"""
+    (the same one after an assignment, a new one after `model_copy(update=...)` / `copy.copy` + assignment: whatever
+    an earlier save remembered *on* the recording object travels with such a copy)"""
     hit = lambda r: PurePosixPath(os.fspath(r.path)) == PurePosixPath(src)
     new = dst if how.endswith("_str") else Path(dst)
     if how.startswith("assign"):
@@ -339,6 +362,14 @@ def _move(obj, src, dst, how):
             if hit(r):
                 r.path = new
         return obj
+    if how == "copy_assign":
+        def moved(r):
+            if not hit(r):
+                return None
+            r2 = copy.copy(r)
+            r2.path = new
+            return r2
+        return _copy_tree(obj, moved, {})
     return _copy_tree(obj, lambda r: r.model_copy(update={"path": new}) if hit(r) else None, {})
 
 
@@ -1543,6 +1574,25 @@ def _route_collection(rng, ty, route, star_path, base):
     return cj
 
 
+def _share_uuids_across_kinds(cj):
+    """the same collection with one uuid used by objects of different kinds (the collection itself, its first
+    member, that member's recording): uuids identify objects within their kind only"""
+    cj = copy.deepcopy(cj)
+    v = cj["value"]
+    recs = _all_recordings(cj)
+    if not recs:
+        return None
+    members = v.get("clip_annotations") or v.get("clip_predictions") or []
+    if members:
+        u = members[0]["clip"]["recording"]["uuid"]
+        if all(m["uuid"] != u for m in members):
+            members[0]["uuid"] = u
+        v["uuid"] = u
+    else:
+        v["uuid"] = recs[0][0]
+    return cj
+
+
 def _route_cases(ctx, rng, reps=1):
     """every route by which a recording can be reached, per collection type: the recording inside the directory
     (stored relative, relocated) and outside it (the whole save fails, nothing is left behind)"""
@@ -1576,6 +1626,11 @@ def _route_cases(ctx, rng, reps=1):
                     reloc.append({"collection": cin, "save_dir": A, "load_dir": rng.choice(LOAD_DIRS),
                                   "dir_as": rng.choice(DIR_KINDS_SAVE), "load_as": rng.choice(DIR_KINDS_LOAD), **extra})
                     ctx.tally(f"route cases built by {how}" + (", paths as str" if rp else ""), 3)
+                shared = _share_uuids_across_kinds(cin)
+                if shared is not None and ty != "evaluation":
+                    stored.append({"collection": shared, "audio_dir": A, "dir_as": hs})
+                    reloc.append({"collection": shared, "save_dir": A, "load_dir": rng.choice(LOAD_DIRS), "dir_as": hs, "load_as": hl})
+                    ctx.tally("route cases with one uuid shared across kinds", 2)
     return stored, reloc
 
 
